@@ -30,6 +30,13 @@ CLAIMS["C17"] = (
     "DESIGN.md §2 C17",
 )
 
+CLAIMS["C16"] = (
+    "accumulator typestate (attribute effect analysis) + sibling agreement by free-term abstract interpretation (forward vs update vs benchmark helpers)",
+    "For BitErrorRate and BlockErrorRate (and the SER/FER aliases): the registered integer buffers are advanced in update() only by += of per-batch quantities that read no accumulator, reset() zeroes exactly those buffers, compute() is errors/max(total,1), forward() writes no state; the per-batch error count and total derived from update() by a free-term abstract interpreter equal those derived from forward() (real and complex branches), and the count is symmetric in its arguments; BLER blocks come from one reshape helper that raises on non-divisible sizes and uses any() over the block axis; the benchmark helpers have the closed forms count(!=)/numel and any-per-block/blocks. This decides partition/order independence and streaming = one-shot structurally (for every history), not float rounding.",
+    "Trusted: terms.py normalisation (casts erased, commutative operands sorted, |a-b| symmetric), torch semantics of sum/any/numel/zero_. Unknown shapes -> exit 2.",
+    "DESIGN.md §2 C16",
+)
+
 NOT_APPLICABLE = {
     "C09": "conjunction at run time of C02/C05/C06/C10/C11/C15 over component pairings and adversarial channels; its structural preconditions (stage order, LLR polarity, label agreement, block framing) are decided under C17, C15, C05, C20 - no additional clause is visible in the shape of the code (DESIGN.md §2 C09)",
 }
